@@ -16,11 +16,11 @@ CHECKS = {
                 "ids embedded into uint64 incl. 1, 2^63+-1, 2^64-3, 2^64-2) are executed on the real z.Tree for page "
                 "sizes 80/96/128/256/4096; after every operation Get of every key id, IterateKV and Stats are "
                 "recorded and TLC validates the trace against spec/z/TraceTree.tla (observer = abstract map; page "
-                "structure compared with the model).",
+                "structure compared with the model). Buffer growth: TLC searches spec/z/TreeGoals.tla for behaviours in which the backing buffer is reallocated below the root, in the first and in the second page of a root split (scaled minSize chosen by TLC) and replays them on real trees built with that minSize; half of the simulated behaviours and a third of the small-page seeded histories also run scaled; a bulk family (10^5 keys, compact checkpoints: every key's Get compared with its known value, IterateKV classified, Stats) grows memory- and file-backed trees several times for seeded page sizes and runs the (page size, order, backing) combinations for which a count-level planner predicts a root split coinciding with a reallocation.",
         "design_ref": "DESIGN.md section 6 (C10), 4.4, Appendix A.2",
         "note": "Design explored exhaustively only for MK = 4 and <= 7 operations over 7 key ids (quick) / 10 operations over 8 key ids and 7 operations over 6 key ids with three value ids (thorough), beyond that by TLC simulation with the invariants on; real-code "
                 "verdicts cover the key ids of each trace's universe (<= 600 ids, 40000 in fill runs), not all 2^64 keys. "
-                "Known finding F2 (stale max key after DeleteBelow) is reported as KNOWN-FINDING while open.",
+                "Scaled trees replace the constant minSize inside copies of the three constructors/Reset (harness); bulk verdicts rest on the harness's key-by-key comparison (monitor). Known finding F10 (fault in a root split that remaps the file) is reported as KNOWN-FINDING while open.",
         "technique": _TECH,
     },
     "C16": {
@@ -32,10 +32,10 @@ CHECKS = {
                 "MapRefinement after reopen) checked exhaustively; real code: NewTreePersistent on a temp file, "
                 "Close + reopen at many positions of model and seeded histories and on files filled exactly to their "
                 "last page (all five page sizes in the thorough tier); the observer requires the same mapping, the "
-                "same statistics except Allocated, no panic, reuse of recycled pages and map correctness afterwards.",
+                "same statistics except Allocated, no panic, reuse of recycled pages and map correctness afterwards. Buffer/file growth: goals 'extended again after reopening a file that had been extended twice' and 'root split reallocating after a reopen' of spec/z/TreeGoals.tla are found by TLC and replayed on scaled file-backed trees; bulk file-backed trees (always 4 KiB pages plus seeded sizes) are extended twice, reopened, extended again, reopened, compacted, reopened, refilled.",
         "design_ref": "DESIGN.md section 6 (C16), 4.4, Appendix A.2",
         "note": "Clean close only. minSize (1 MiB) is a Go constant: file-fullness is reached by filling. Known "
-                "finding F3 (reinit slice bounds panic on an exactly full file) is reported as KNOWN-FINDING while open.",
+                "finding F10 is reported as KNOWN-FINDING while open.",
         "technique": _TECH,
     },
 }
